@@ -91,19 +91,21 @@ def attr_set_key(ctx):
 def _ideal(thorough):
     a = 5 if thorough else 4
     return [
+        M.ModelCfg("T_dc", "F_k1", "AS_filt", maxadd=3, maxcol=3, amounts="AM_1"),      # first: run with -coverage
         M.ModelCfg("T_c", "F_all", "AS_four", limit=3, deflimit=4, maxadd=a, maxcol=3, amounts="AM_1"),
         M.ModelCfg("T_d", "F_all", "AS_four", limit=3, deflimit=4, maxadd=a + 1, maxcol=3, amounts="AM_1"),
-        M.ModelCfg("T_dc", "F_all", "AS_three", limit=2, deflimit=4, maxadd=4 if thorough else 3, maxcol=3, amounts="AM_12"),
+        M.ModelCfg("T_dc", "F_all", "AS_three", limit=2, deflimit=4, maxadd=4 if thorough else 3, maxcol=3,
+                   amounts="AM_12" if thorough else "AM_1"),
         M.ModelCfg("T_c", "F_all", "AS_three", limit=3, deflimit=4, maxadd=4, maxcol=2, amounts="AM_1", allorders=True),
-        M.ModelCfg("T_dc", "F_k1", "AS_filt", maxadd=3, maxcol=3, amounts="AM_1"),
         M.ModelCfg("T_c", "F_all", "AS_five", limit=4, deflimit=4, maxadd=5, maxcol=2, amounts="AM_1"),
-    ]
+    ] + ([M.ModelCfg("T_ddc", "F_all", "AS_four", limit=3, deflimit=4, maxadd=4, maxcol=4, amounts="AM_1"),
+          M.ModelCfg("T_dc", "F_k2_k1", "AS_filt", limit=3, deflimit=4, maxadd=4, maxcol=3, amounts="AM_1")] if thorough else [])
 
 
 def _asimpl(thorough):
     return [
         M.ModelCfg("T_c", "F_all", "AS_five", limit=3, deflimit=4, maxadd=5, maxcol=3 if thorough else 2, amounts="AM_1", dev=MY_DEVS),
-        M.ModelCfg("T_dc", "F_all", "AS_four", limit=2, deflimit=4, maxadd=4, maxcol=3, amounts="AM_1", dev=MY_DEVS),
+        M.ModelCfg("T_dc", "F_all", "AS_four", limit=2, deflimit=4, maxadd=4 if thorough else 3, maxcol=3, amounts="AM_1", dev=MY_DEVS),
         M.ModelCfg("T_c", "F_all", "AS_five", limit=4, deflimit=4, maxadd=5, maxcol=2, amounts="AM_1", dev=MY_DEVS),
     ]
 
@@ -127,14 +129,16 @@ def generate(ctx):
         M.ModelCfg("T_c", "F_none", "AS_filt", maxadd=2, maxcol=2, amounts="AM_1"),
     ]
     jobs += [M.bfs_job(mc, limit=3000 if thorough else 300, seed=ctx.seed) for mc in small]
+    # random walks, deeper (the model costs ~1.5 ms per successor state, -simulate computes all of them)
+    a, c = (12, 6) if thorough else (8, 5)
     deep = [
-        M.ModelCfg("T_c", "F_all", "AS_five", limit=3, deflimit=4, maxadd=12, maxcol=5, amounts="AM_12"),
-        M.ModelCfg("T_ddc", "F_all", "AS_five", limit=3, deflimit=4, maxadd=12, maxcol=8, amounts="AM_12"),
-        M.ModelCfg("T_dc", "F_all", "AS_four", limit=2, deflimit=4, maxadd=10, maxcol=6, amounts="AM_12"),
-        M.ModelCfg("T_dc", "F_k12", "AS_filt", maxadd=10, maxcol=6, amounts="AM_12"),
-        M.ModelCfg("T_d", "F_all", "AS_five", limit=4, deflimit=4, maxadd=12, maxcol=5, amounts="AM_12"),
+        M.ModelCfg("T_c", "F_all", "AS_five", limit=3, deflimit=4, maxadd=a, maxcol=c, amounts="AM_12"),
+        M.ModelCfg("T_ddc", "F_all", "AS_five", limit=3, deflimit=4, maxadd=a, maxcol=c + 2, amounts="AM_12"),
+        M.ModelCfg("T_dc", "F_all", "AS_four", limit=2, deflimit=4, maxadd=a, maxcol=c, amounts="AM_12"),
+        M.ModelCfg("T_dc", "F_k12", "AS_filt", maxadd=a, maxcol=c, amounts="AM_12"),
+        M.ModelCfg("T_d", "F_all", "AS_five", limit=4, deflimit=4, maxadd=a, maxcol=c, amounts="AM_12"),
     ]
-    jobs += [M.sim_job(mc, num=500 if thorough else 70, depth=26, seed=ctx.seed * 103 + i) for i, mc in enumerate(deep)]
+    jobs += [M.sim_job(mc, num=250 if thorough else 24, depth=a + c + 3, seed=ctx.seed * 103 + i) for i, mc in enumerate(deep)]
     behs = M.run_jobs(ctx, jobs, parallel=4)
     ctx.extra["witness_behaviours"] = sum(1 for b in behs if b["src"].startswith("Wit"))
     if ctx.extra["witness_behaviours"] != nwit:
